@@ -273,6 +273,10 @@ def client_burst_case(ctx, n: int) -> None:
         ctx.clause("deadlock-detector-fired")
         ctx.violation("mqtt-deaf-after-backlog", f"{n} broker messages arrived before any read: read #{log.get('waiting')} can never "
                                                  f"complete (logical deadlock) - reception ended silently", case)
+    elif isinstance(result, BaseException):
+        from ..harness import scenario_exception
+
+        scenario_exception(ctx, result, case, "client-burst")
     elif log["bad"] is not None:
         ctx.violation("delivery-order-or-count", f"burst of {n}: read #{log['bad'][0]} returned {log['bad'][1]!r}", case)
     elif "disconnect" in log:
@@ -418,6 +422,11 @@ def client_script_case(ctx, script: list, prefixes: tuple[str, str] = ("in", "ou
         result, loop = run_virtual(scenario)
     ctx.case(("client", tuple(map(repr, script)), prefixes), nontrivial=len(log["expected"]) >= 2, sample=case)
     ctx.clause("client-script-judged")
+    if isinstance(result, BaseException) and not isinstance(result, LogicalDeadlock):
+        from ..harness import scenario_exception
+
+        scenario_exception(ctx, result, case, "client-script")
+        return
     if isinstance(result, LogicalDeadlock):
         ctx.clause("deadlock-detector-fired")
         waiting = log.get("waiting_for")
@@ -470,6 +479,11 @@ def client_publish_case(ctx, prefixes: tuple[str, str], lines: list[str]) -> Non
         result, _loop = run_virtual(scenario)
     ctx.case(("client-publish", prefixes, tuple(lines)), sample=case)
     ctx.clause("client-publish-arguments")
+    if isinstance(result, BaseException) and not isinstance(result, LogicalDeadlock):
+        from ..harness import scenario_exception
+
+        scenario_exception(ctx, result, case, "client-publish")
+        return
     if isinstance(result, LogicalDeadlock):
         ctx.violation("mqtt-deaf", "logical deadlock while publishing", case)
         return
